@@ -33,7 +33,12 @@ import (
 )
 
 // vfFreePort asks the kernel for a free loopback port of the network.
-func vfFreePort(t *testing.T, network string) (port uint16) {
+// vfTB is what the helpers need of a *testing.T or a *rapid.T.
+type vfTB interface {
+	Fatalf(format string, args ...any)
+}
+
+func vfFreePort(t vfTB, network string) (port uint16) {
 	switch network {
 	case "udp":
 		c, err := net.ListenPacket("udp", "127.0.0.1:0")
@@ -57,7 +62,7 @@ func vfFreePort(t *testing.T, network string) (port uint16) {
 // vfFirstRun puts the process into the state of a program started for the first
 // time and returns the handler the web servers serve, the free ports for the
 // wizard and the working directory.
-func vfFirstRun(t *testing.T) (h http.Handler, webPort, dnsPort uint16, dir string) {
+func vfFirstRun(t vfTB) (h http.Handler, webPort, dnsPort uint16, dir string) {
 	log.SetOutput(io.Discard)
 	logger := slogutil.NewDiscardLogger()
 	ctx := context.Background()
@@ -80,7 +85,9 @@ func vfFirstRun(t *testing.T) (h http.Handler, webPort, dnsPort uint16, dir stri
 	}
 	webPort = vfFreePort(t, "tcp")
 
-	// the state of a program started for the first time (see run() in home.go)
+	// the state of a program started for the first time (see run() in home.go);
+	// the clients container refuses to be set up twice in one process
+	globalContext.clients = clientsContainer{}
 	globalContext.workDir = dir
 	initConfigFilename(options{})
 	globalContext.mux = http.NewServeMux()
